@@ -10,7 +10,7 @@ for d in /verif/seeded/*/; do
   cd /repo
   if ! git apply --check $P 2>/dev/null; then echo "$name: PATCH DOES NOT APPLY"; continue; fi
   git apply $P
-  out=$(cd /verif && timeout 1500 ./check $id quick 2>&1 | grep -E "^$id quick|^VIOLATION|MACHINERY" | tail -1 | cut -c1-120)
+  out=$(cd /verif && timeout 1500 ./check $id quick 2>&1 | grep -a -E "^$id quick|^VIOLATION|MACHINERY" | tail -1 | cut -c1-120)
   cd /repo && git checkout -- .
   echo "$name: $out"
 done
